@@ -77,7 +77,7 @@ func c01case(c GCase, a *run.Acc) {
 		wantTrees = rft.Trees(c.NT, c.Pos)
 	}
 
-	env := gram.NewEnv(c.In)
+	env := gram.NewEnvAt(c.In, c.Before())
 	var gd *gram.Guard
 	var b *gram.Built
 	reuse := run.Hash(g.String())%2 == 0
